@@ -119,6 +119,9 @@ mod lockable_map_impl;
 mod lockable_trait;
 mod map_like;
 mod utils;
+#[cfg(feature = "verif_hooks")]
+#[doc(hidden)]
+pub mod verif_hooks;
 
 #[cfg(test)]
 mod tests;
@@ -136,3 +139,6 @@ pub use lockable_lru_cache::LockableLruCache;
 pub use lockable_trait::Lockable;
 pub use lockpool::LockPool;
 pub use utils::never::{InfallibleUnwrap, Never};
+#[cfg(all(feature = "verif_hooks", feature = "lru"))]
+#[doc(hidden)]
+pub use utils::time::TimeProvider;
